@@ -1,8 +1,11 @@
 CONSTANTS
   Jobs <- Menu
-  KeyByHw = FALSE
-  CopyAttrs = TRUE
-  MaxLen = 3
+  FineRb = FALSE
+  FineRe = TRUE
+  ProtRb = TRUE
+  ProtAcl = TRUE
+  ProtOrd = TRUE
+  MaxLen = 2
 INIT Init
 NEXT Next
 CONSTRAINT Bound
